@@ -102,7 +102,8 @@ def run(seed_id, checks, tier):
             if keep is not None:
                 ev.write_text(keep)
             print(seed_id, pid, json.dumps(meta['checks'][pid])[:500])
-    (dst / 'meta.json').write_text(json.dumps(meta, indent=1))
+    if not os.environ.get('SEEDED_NO_WRITE'):          # alternative-seed sweeps do not overwrite the recorded result
+        (dst / 'meta.json').write_text(json.dumps(meta, indent=1))
 
 
 def main():
